@@ -19,14 +19,20 @@ theorem simple_cn (d : String) {e : Node} (hs : isSimpleTargetPart e = true) : c
 
 def SplitC (d : String) (left : Node) (R : (Node × Node) × St) : Prop := cn d R.1.1 + cn d R.1.2 = cn d left
 
+theorem cn_seqOperand (d : String) (e : Node) : cn d (seqOperand e) = cn d e := by
+  unfold seqOperand; split <;> simp
+
 theorem hoistTargetPart_C (d : String) (e : Node) (sp : Span) (s : St) : SplitC d e (hoistTargetPart e sp s) := by
   unfold hoistTargetPart
   simp only [run_bind]
-  rcases getTemporalIdent_cases e [] sp .expr s with ⟨hl, h⟩ | ⟨hl, n, s', h, _⟩
-  · rw [h]; simp only [run_pure]; simp [SplitC, isLit_cn d hl]
+  rcases getTemporalIdent_cases (seqOperand e) [] sp .expr s with ⟨hl, h⟩ | ⟨hl, n, s', h, _⟩
+  · rw [h]; simp only [run_pure]
+    have := isLit_cn d hl
+    rw [cn_seqOperand] at this
+    simp [SplitC, cn_seqOperand, this]
   · rw [h]
     simp only [List.nil_append, List.getLast?_singleton, run_pure]
-    simp [SplitC, tempIdent, assignRight]
+    simp [SplitC, tempIdent, assignRight, cn_seqOperand]
 
 theorem splitComputedKey_C (d : String) (csp : Span) (e : Node) (sp : Span) (s : St) :
     SplitC d (.other "Computed" csp ["expression"] [e]) (splitComputedKey csp e sp s) := by
